@@ -125,6 +125,23 @@ Theorem C20_locals_only_from_accepted_local_submissions :
 Proof. exact locals_all_histories. Qed.
 Print Assumptions C20_locals_only_from_accepted_local_submissions.
 
+(* Clause 9: head changes that the scheduler coalesces while a run is in flight.
+   Whatever requests are merged (resets to higher heads, to same-height siblings,
+   to lower heights; promotion requests in between), the run launched for them is
+   the reset from the first request's old head to the LAST request's new head
+   with the union of the dirty sets, and - when that reset takes effect - the pool
+   ends on the state and gas limit of that last head.  Being a runReorg with some
+   arguments, the merged run also enjoys every theorem above (partition, validity
+   against cur_state, gap-freeness, limits, no panic). *)
+Theorem C20_merged_resets_equal_last_head :
+  forall c genesis ops rs ord n s re,
+    let p := run (new_pool c genesis) ops in
+    last_reset rs = Some n -> h_state n = Some s -> reset_reinject (chain p) (first_old rs) n = Some re ->
+    run_merged p rs ord = run_reorg p (Some (first_old rs, n)) (s_dirty (merge_all rs)) ord /\
+    cur_state (run_merged p rs ord) = s /\ max_gas (run_merged p rs ord) = h_gaslimit n.
+Proof. exact merged_resets_all_histories. Qed.
+Print Assumptions C20_merged_resets_equal_last_head.
+
 (* Data-race clause (partial): on the method table regenerated from
    core/tx_pool.go, every entry point of TxPool (exported method or goroutine
    body) touches the shared fields only inside
@@ -150,6 +167,13 @@ Print Assumptions C20_read_regions_do_not_write.
 Theorem C20_evict_branch_as_modelled : c20_evict_branch_as_modelled = true.
 Proof. exact evict_branch_as_modelled. Qed.
 Print Assumptions C20_evict_branch_as_modelled.
+
+(* scheduleReorgLoop merges requests as Model.sched_merge says (source fingerprint
+   regenerated by the translator at every check): keep the first reset request,
+   overwrite its new head with every later one, unite the promotion sets *)
+Theorem C20_scheduler_merge_as_modelled : c20_sched_merge_as_modelled = true.
+Proof. exact sched_merge_as_modelled. Qed.
+Print Assumptions C20_scheduler_merge_as_modelled.
 
 (* ---- non-vacuity ------------------------------------------------------------ *)
 Example C20_nonvacuous_partition :
@@ -188,3 +212,12 @@ Example C20_nonvacuous_limits :
   pending_count p = 2 /\ pend_len p 1 = 2 /\ queued_count p = 0 /\ panicked p = false /\ length (all p) = 2%nat.
 Proof. vm_compute. repeat split. Qed.
 Print Assumptions C20_nonvacuous_limits.
+
+(* a burst A->B, B->B2 (B2 a same-height sibling of B) merges into the reset A->B2 *)
+Example C20_nonvacuous_merge :
+  s_reset (merge_all [RReset (Some (b_hdr ex_genesis)) ex_hA; RPromote [1]; RReset (Some ex_hA) ex_hB; RPromote [0]])
+    = Some (Some (b_hdr ex_genesis), ex_hB) /\
+  s_dirty (merge_all [RReset (Some (b_hdr ex_genesis)) ex_hA; RPromote [1]; RReset (Some ex_hA) ex_hB; RPromote [0]]) = Some [1; 0] /\
+  h_num ex_hA = h_num ex_hB.
+Proof. vm_compute. repeat split. Qed.
+Print Assumptions C20_nonvacuous_merge.
